@@ -106,11 +106,16 @@ EvalNode(S, i, t) ==
                      S1 == [S EXCEPT !.fbq[i] = Tail(S.fbq[i])]
                  IN  Write(S1, i, t, v)
             ELSE S
-      [] n.kind = "delay" ->
+      [] n.kind \in {"delay", "tdelay"} ->
             \* a due echo runs user code only if the required input (still) holds a value (C03); the wake-up is
-            \* consumed either way
+            \* consumed either way.  tdelay: emitting a negative value throws instead (a captured error, C15) - the node's
+            \* timer and state go on as if it had not
             LET due == S.pend[i] = t
-                S1  == IF due THEN (IF allOk THEN [Write(S, i, t, S.st[i]) EXCEPT !.pend[i] = 0] ELSE [S EXCEPT !.pend[i] = 0])
+                S1  == IF due THEN (IF allOk
+                                    THEN (IF n.kind = "tdelay" /\ S.st[i] < 0
+                                          THEN [S EXCEPT !.errs = Append(S.errs, <<t, i, S.st[i]>>), !.pend[i] = 0]
+                                          ELSE [Write(S, i, t, S.st[i]) EXCEPT !.pend[i] = 0])
+                                    ELSE [S EXCEPT !.pend[i] = 0])
                        ELSE S
             IN  IF anyTick
                 THEN [S1 EXCEPT !.st[i] = iv[1], !.pend[i] = t + n.k]
